@@ -253,6 +253,11 @@ def load_known(pid):
 
 # ----------------------------------------------------------------------------- main
 
+AGGREGATE_KINDS = {"soak", "overlap", "crossfire", "shared", "owners", "mixup", "bursts", "uptime", "crowd", "race",
+                   "race-reopen", "race-verdicts", "discover-round", "discover-overlap", "lcconc", "xroute", "loop",
+                   "prodloop", "e2e", "leak", "lifecycle", "recover"}
+
+
 def main():
     if len(sys.argv) < 3:
         print(__doc__)
@@ -264,6 +269,18 @@ def main():
     if "--replay" in sys.argv:
         replay_in = os.path.abspath(sys.argv[sys.argv.index("--replay") + 1])
     seed = int(os.environ.get("VERIF_SEED", "1") or "1")
+    if replay_in:
+        # scenarios that are one long run of many clients / rounds (a soak, a burst series, a race repeated thousands of
+        # times) are part of every run of the check: replaying one means running the check again under the recorded seed
+        try:
+            rdoc = json.load(open(replay_in))
+            kind = (rdoc.get("failing_case") or {}).get("kind", "")
+            if kind in AGGREGATE_KINDS or rdoc.get("no_failing_input_found") or rdoc.get("signature") == "process-died":
+                seed = int(rdoc.get("seed", seed))
+                tier = rdoc.get("tier", tier)
+                replay_in = None
+        except Exception:
+            pass
     cfg = json.load(open(os.path.join(VERIF, "checks", pid + ".json")))
     t0 = time.time()
     os.makedirs(BUILD, exist_ok=True)
